@@ -135,8 +135,12 @@ func (o *Obs) emitInitAndWS(s *hx.Session, res *Result, initial bool) {
 		for _, v := range res.Values[name] {
 			vals = append(vals, c.ID(v))
 		}
-		s.Op(fmt.Sprintf("store %d created=%s root=%s upd=%s rem=%s add=%s fet=%s items=%d tracked=%s delta=%d vals=%s",
-			storeIdx(name), cr, join(root), join(upd), join(rem), join(add), join(fet), items, tr, deltas[name], join(vals)), "ok")
+		witems := items
+		if res.WriteItems != nil {
+			witems = res.WriteItems[name]
+		}
+		s.Op(fmt.Sprintf("store %d created=%s root=%s upd=%s rem=%s add=%s fet=%s items=%d witems=%d tracked=%s delta=%d vals=%s",
+			storeIdx(name), cr, join(root), join(upd), join(rem), join(add), join(fet), items, witems, tr, deltas[name], join(vals)), "ok")
 	}
 }
 
@@ -351,18 +355,20 @@ func (o *Obs) stateImpl(ids []string, ds *DiskState, counts map[string]int64) st
 	return fmt.Sprintf("reg=[%s] blobs=[%s] cnt=[%s] tlog=%d plog=%d", strings.Join(hss, " "), strings.Join(bls, ","), strings.Join(cs, " "), len(ds.TLogs), len(ds.PLogs))
 }
 
-// CutAtConflict: a commit whose first loop round was not successful logs lockTrackedItems ("tlog.Add 2") a
-// second time when it retries. The part of the trace Model P speaks about ends with the live rollback of the
-// first round, i.e. with the last tlog.Remove before that second "tlog.Add 2" (or, when a node lock was held
-// by someone else, with the l2.Unlock that follows the failed l2.Lock).
+// CutAtConflict: a commit whose first loop round was not successful goes round the loop again, and every round
+// starts by asking for the node locks ("l2.Lock ..."; nothing else in Commit calls l2.Lock). The part of the trace
+// Model P speaks about ends with the live rollback of the first round, i.e. with the last tlog.Remove before that
+// second "l2.Lock" (or, when a node lock was held by someone else, with the l2.Unlock that follows the refused
+// l2.Lock). What the second round does is decided by refetch-and-merge in the B-tree layer: it may log
+// lockTrackedItems again, or fail in the merge before that.
 func CutAtConflict(trace []string) ([]string, bool) {
 	n := 0
 	for i, l := range trace {
-		if l == "tlog.Add 2" {
+		if strings.HasPrefix(l, "l2.Lock ") {
 			n++
 			if n == 2 {
 				for j := i - 1; j >= 0; j-- {
-					if strings.HasPrefix(trace[j], "tlog.Remove") {
+					if strings.HasPrefix(trace[j], "tlog.Remove") || strings.HasPrefix(trace[j], "l2.Unlock") {
 						return trace[:j+1], true
 					}
 				}
